@@ -195,6 +195,23 @@ func (w *lsWorld) createRepo(abs string, bare, noCommit bool) (*lsRepo, error) {
 			return nil, err
 		}
 	}
+	// most local clones have an origin: known code hosts, self-hosted hosts (for which
+	// zoekt cannot derive URL templates), scp-like and odd URLs. The name of a
+	// repository is its path below the root whatever the origin says.
+	if k := w.r.IntN(8); k > 0 {
+		origins := []string{
+			"https://github.com/org/proj" + fmt.Sprint(rp.ID) + ".git",
+			"https://git.example.com/group/project" + fmt.Sprint(rp.ID) + ".git",
+			"git@gitlab.internal:team/x" + fmt.Sprint(rp.ID) + ".git",
+			"https://gerrit.googlesource.com/gerrit",
+			"ssh://git@bitbucket.org/ws/repo" + fmt.Sprint(rp.ID),
+			"/srv/git/mirror" + fmt.Sprint(rp.ID) + ".git",
+			"https://git.example.com/group/project-shared.git", // the same origin for several clones
+		}
+		if _, err := w.git(abs, "config", "remote.origin.url", origins[k-1]); err != nil {
+			return nil, err
+		}
+	}
 	if !noCommit {
 		w.newFiles(rp)
 		if err := w.writeAndCommit(rp); err != nil {
@@ -215,6 +232,11 @@ func (w *lsWorld) randomPath(bare bool) string {
 	}
 	d := 1 + w.r.IntN(3)
 	p := root
+	if root == w.roots[0] && w.r.IntN(4) == 0 {
+		// below the directory that is itself selectable as a root (roots[3]): the
+		// repository is then discovered through two overlapping roots
+		p = w.roots[3]
+	}
 	for i := 0; i < d; i++ {
 		p = filepath.Join(p, pick(w.r, lsComps))
 	}
